@@ -664,14 +664,24 @@ Definition C02_check (c : cin) (o : cobs) : bool :=
         | None => false
         | Some b =>
             spec_layout_ok name pl data b
-            && (if fail then true
+            && (if fail then match os with SErr => true | _ => false end   (* no metainfo of a truncated blob *)
                 else match os with SSame => true | _ => false end)   (* stream = buffer *)
             && (if valid_name name
                 then match ort with SSame => true | _ => false end  (* round trip preserves info
                        hash, digest, layout (and the serialised form) *)
                 else true)
         end
-  | CParse _, OParse _ => true          (* the statement does not speak about foreign input *)
+  | CParse _, OParse op =>
+      (* foreign input: the statement only asks that what was parsed survives serialising and
+         parsing again (info hash, digest, layout); evaluated with the model's parser on the
+         implementation's own Serialize() output *)
+      match op with
+      | None => true
+      | Some m => match observe_res (deserialize sha1 (o_ser m)) with
+                  | Some m' => mobs_eqb m' m
+                  | None => false
+                  end
+      end
   | CTable tbl sizes, OTable ot =>
       if negb (table_ok tbl) then true else
       match tbl, ot with
@@ -695,3 +705,6 @@ Definition C02_check (c : cin) (o : cobs) : bool :=
   | _, _ => false
   end.
 End Oracle.
+
+(* a digest name used by the non-vacuity examples: sha256("hello") *)
+Definition ex_name : list N := codes "2cf24dba5fb0a30e26e83b2ac5b9e29e1b161e5c1fa7425e73043362938b9824".
